@@ -728,6 +728,69 @@ pub fn gen_kind(kind: &str, p: &mut Prng, id: String) -> Option<SimCase> {
     })
 }
 
+/* ---------------- probes (DESIGN section 9) ---------------- */
+
+fn probe_run(pps: Option<usize>) -> RunSpec {
+    RunSpec { name: "u".into(), adv: true, pps, mtl: 0, msi: 200, cont: false, oc: false, on: false, fpc: 0.0, fbc: 0.0, fps: 0.0, fbs: 0.0, seed: Some(1) }
+}
+
+fn plain_machine(states: Vec<State>) -> Machine {
+    Machine { allowed_padding_packets: 0, max_padding_frac: 0.0, allowed_blocked_microsec: 0, max_blocking_frac: 0.0, states }
+}
+
+/// Minimal hand-made cases for the deviations found while designing (F5, F7, F10, F11).
+pub fn probes() -> Vec<SimCase> {
+    let mut res = Vec::new();
+    // F5: pps = 2^32 truncates to 0 in `window / pps as u32`
+    res.push(SimCase { id: "probe-F5-pps-2pow32".into(), kind: "probe".into(), mc: vec![], ms: vec![], trace: vec![(0, true)], delay_ns: 0, runs: vec![probe_run(Some(1usize << 32))] });
+    // F7: non-bypass block extended by a bypass block, then bypass padding
+    {
+        let s0 = State::new(enum_map! { Event::NormalSent => tr1(1), _ => vec![] });
+        let mut s1 = State::new(enum_map! { Event::BlockingBegin => tr1(2), _ => vec![] });
+        s1.action = Some(Action::BlockOutgoing { bypass: false, replace: false, timeout: konst(0.0), duration: konst(10_000.0), limit: None });
+        let mut s2 = State::new(enum_map! { Event::BlockingBegin => tr1(3), _ => vec![] });
+        s2.action = Some(Action::BlockOutgoing { bypass: true, replace: false, timeout: konst(0.0), duration: konst(20_000.0), limit: None });
+        let mut s3 = State::new(enum_map! { _ => vec![] });
+        s3.action = Some(Action::SendPadding { bypass: true, replace: false, timeout: konst(1000.0), limit: None });
+        res.push(SimCase { id: "probe-F7-bypass-extension".into(), kind: "probe".into(), mc: vec![plain_machine(vec![s0, s1, s2, s3])], ms: vec![], trace: vec![(0, true), (50_000_000, true)], delay_ns: 1_000_000, runs: vec![probe_run(None)] });
+    }
+    // F10: UpdateTimer with duration 0, no timer running, no replace
+    {
+        let s0 = State::new(enum_map! { Event::NormalSent => tr1(1), _ => vec![] });
+        let mut s1 = State::new(enum_map! { _ => vec![] });
+        s1.action = Some(Action::UpdateTimer { replace: false, duration: konst(0.0), limit: None });
+        res.push(SimCase { id: "probe-F10-timer-zero".into(), kind: "probe".into(), mc: vec![plain_machine(vec![s0, s1])], ms: vec![], trace: vec![(0, true), (5_000_000, true)], delay_ns: 1_000_000, runs: vec![probe_run(None)] });
+    }
+    // F11: BlockOutgoing with duration 0 (no blocking active), without and with replace
+    for (replace, id) in [(false, "probe-F11-block-zero"), (true, "probe-F11b-block-zero-replace")] {
+        let s0 = State::new(enum_map! { Event::NormalSent => tr1(1), _ => vec![] });
+        let mut s1 = State::new(enum_map! { _ => vec![] });
+        s1.action = Some(Action::BlockOutgoing { bypass: false, replace, timeout: konst(0.0), duration: konst(0.0), limit: None });
+        res.push(SimCase { id: id.into(), kind: "probe".into(), mc: vec![plain_machine(vec![s0, s1])], ms: vec![], trace: vec![(0, true), (5_000_000, true)], delay_ns: 1_000_000, runs: vec![probe_run(None)] });
+    }
+    res
+}
+
+/// input-only text of a case (what `sim-replay` reads)
+pub fn case_inputs(c: &SimCase) -> String {
+    let mut out = String::new();
+    let _ = writeln!(out, "case {} {}", c.id, c.kind);
+    for m in &c.mc {
+        let _ = writeln!(out, "mc {}", hex(&genm::machine_bytes(m)));
+    }
+    for m in &c.ms {
+        let _ = writeln!(out, "ms {}", hex(&genm::machine_bytes(m)));
+    }
+    let tr: Vec<String> = c.trace.iter().map(|(t, s)| format!("{}:{}", t, if *s { "s" } else { "r" })).collect();
+    let _ = writeln!(out, "tr {} {}", c.trace.len(), tr.join(" "));
+    let _ = writeln!(out, "delay {}", c.delay_ns);
+    for r in &c.runs {
+        fmt_run_line(&mut out, r);
+    }
+    let _ = writeln!(out, "end");
+    out
+}
+
 /* ---------------- replay ---------------- */
 
 fn parse_f64_bits(s: &str) -> f64 {
@@ -862,6 +925,15 @@ pub fn cmd(sub: &str, args: &[String], w: &mut dyn Write) -> bool {
                         std::process::exit(2);
                     }
                 }
+            }
+            true
+        }
+        "sim-probes" => {
+            // input-only case files of the hand-made probes; with `--run` also run them
+            let run = args.iter().any(|a| a == "--run");
+            for c in probes() {
+                let text = if run { run_case(&c) } else { case_inputs(&c) };
+                let _ = w.write_all(text.as_bytes());
             }
             true
         }
